@@ -214,6 +214,22 @@ def exec_history(job):
                             if ad.type == "addrgroup" and ad.items:
                                 ad.line = op["text"]
                                 break
+            elif a == "EditMembers":
+                # the members of the first named group are edited in place (append / delete / re-point one member): no line
+                # of the ACL changes, its meaning does
+                done = False
+                for x in leaves_of(acl):
+                    if type(x).__name__ != "Ace" or done:
+                        continue
+                    for ad in (x.srcaddr, x.dstaddr):
+                        if ad.type == "addrgroup" and not done:
+                            if op["how"] == "append" or not ad.items:
+                                ad.items.append(Address(op["text"], platform=acl.platform, version=job["ver"]))
+                            elif op["how"] == "del":
+                                del ad.items[op["idx"] % len(ad.items)]
+                            else:
+                                ad.items[op["idx"] % len(ad.items)].line = op["text"]
+                            done = True
             elif a == "TcamCount":
                 e["ret_int"] = int(acl.tcam_count())
             elif a == "DeleteNote":
@@ -399,6 +415,10 @@ def rand_op(rng, plat_now, weights):
         op["typ"] = rng.choice(["standard", "extended", "extended"])
     elif a == "EditEntry":
         op["text"] = rng.choice(["host 10.1.2.3", "any", "10.0.0.0 0.0.0.255"])
+    elif a == "EditMembers":
+        w = rand_w(rng)
+        op.update(how=rng.choice(["append", "append", "del", "setline"]), idx=rng.randint(0, 3),
+                  text=native_only(rng.choice(spellings_ace(rng.choice([w, narrow_w(rng, w)]), plat_now)), plat_now))
     elif a == "TwinOp":
         op["op"] = rng.choice(["platform", "resequence", "pop", "note", "members", "ports", "line", "delete_shadow", "sort"])
     return op
